@@ -327,7 +327,7 @@ func c14Requests(rng *rand.Rand, g *jgen, ops []c14op, base string, per int, cfg
 				}
 			}
 		}
-		credential := rng.Intn(4)
+		credential := (n / 3) % 4 // (in turn, so that every class is certain to occur)
 		if allValid {
 			credential = 9
 			hdrs = append(hdrs, [2]string{"Authorization", "Bearer tok"}, [2]string{"X-Api-Key", "k"})
@@ -342,7 +342,10 @@ func c14Requests(rng *rand.Rand, g *jgen, ops []c14op, base string, per int, cfg
 				auth = append(auth, full[:n])
 			}
 			auth = append(auth, "abcdef", "abcdefg", strings.Repeat("B", 4000))
-			hdrs = append(hdrs, [2]string{"Authorization", auth[rng.Intn(len(auth))]})
+			hdrs = append(hdrs, [2]string{"Authorization", auth[(n/12)%len(auth)]})
+			if n%2 == 0 {
+				cfg = "authdflt=any" + cfgExtra // (the credential reaches the authenticator)
+			}
 		case 1:
 			hdrs = append(hdrs, [2]string{"X-Api-Key", "k"})
 		case 2:
